@@ -1,0 +1,77 @@
+//go:build verif
+
+// Contracts for the slipvc verifier (see /verif/DESIGN.md). Comment-only file:
+// with the build tag off it does not exist for the compiler, with the tag on
+// it adds no code.
+
+package cl
+
+// ---------------------------------------------------------------------------
+// C05, family I: in these functions every 64-bit integer value that is boxed
+// into a Lisp object, returned, stored or passed on must equal the
+// mathematical value of the expression that computed it (no silent
+// two's-complement wrap-around).
+
+//@ func cl.addNumbers
+//@   property C05
+//@   exact
+//@ func cl.(*Subtract).Call
+//@   property C05
+//@   exact
+//@ func cl.(*Multiply).Call
+//@   property C05
+//@   exact
+//@ func cl.(*Divide).Call
+//@   property C05
+//@   exact
+//@ func cl.floor
+//@   property C05
+//@   exact
+//@ func cl.ceiling
+//@   property C05
+//@   exact
+//@ func cl.truncate
+//@   property C05
+//@   exact
+//@ func cl.round
+//@   property C05
+//@   exact
+//@ func cl.(*Mod).Call
+//@   property C05
+//@   exact
+//@ func cl.(*Rem).Call
+//@   property C05
+//@   exact
+//@ func cl.(*Abs).Call
+//@   property C05
+//@   exact
+//@ func cl.(*Oneplus).Call
+//@   property C05
+//@   exact
+//@ func cl.(*Oneminus).Call
+//@   property C05
+//@   exact
+//@ func cl.(*Incf).Call
+//@   property C05
+//@   exact
+//@ func cl.(*Decf).Call
+//@   property C05
+//@   exact
+//@ func cl.(*Gcd).Call
+//@   property C05
+//@   exact
+//@ func cl.gcd
+//@   property C05
+//@   exact
+//@ func cl.(*Lcm).Call
+//@   property C05
+//@   exact
+//@ func cl.(*Ash).Call
+//@   property C05
+//@   exact
+//@ func cl.(*Isqrt).Call
+//@   property C05
+//@   exact
+//@ func cl.(*Expt).Call
+//@   property C05
+//@   exact
